@@ -30,22 +30,23 @@ def shapes(tier, ref=False):
     o = []
     for ct in range(7):
         # one page per batch, nullable, 4 rows in 2 batches (byte arrays: 3 rows — every length 0..2 forks)
-        o.append(shape(ct, 1, 3 if ct == 5 else 4, 2, 1, 0, ref=ref))
+        o.append(shape(ct, 1, 2 if ct == 5 else 4, 1 if ct == 5 else 2, 1, 0, ref=ref))
         if not q:
             o.append(shape(ct, 0, 4, 2, 1, 0, ref=ref))
             o.append(shape(ct, 1, 5, 2, 1, 2, ref=ref))
     # several batches sharing ONE page (large page size)
     for ct in ([1, 0, 5] if q else range(7)):
-        o.append(shape(ct, 1, 3 if ct == 5 else 4, 2, 1048576, 0, ref=ref))
+        o.append(shape(ct, 1, 2 if ct == 5 else 4, 1 if ct == 5 else 2, 1048576, 0, ref=ref))
     # row-group split, zero rows, OPTIONAL without levels, codecs
     o.append(shape(1, 1, 4, 0, 1, 2, ref=ref))
     o.append(shape(2, 1, 0, 0, 1, 0, ref=ref))
     o.append(shape(1, 1, 3, 0, 1, 0, extra=['-DNOLEVELS'], tag='/nolevels', ref=ref))
-    o.append(shape(2, 1, 3, 0, 1, 0, 'snappy', ref=ref))
-    o.append(shape(5, 1, 3, 0, 1, 0, 'lz4', ref=ref))
+    o.append(shape(2, 1, 6, 3, 1, 0, 'snappy', extra=['-DNULLS_ONLY'], tag='/nulls-only', ref=ref))
+    o.append(shape(5, 1, 6, 3, 1, 0, 'lz4', extra=['-DNULLS_ONLY'], tag='/nulls-only', ref=ref))
     if not q:
         o.append(shape(1, 1, 9, 3, 1, 0, ref=ref, timeout=3000))          # long enough for RLE runs of 8 equal levels
-        o.append(shape(4, 1, 4, 0, 1, 0, 'snappy', ref=ref))
+        o.append(shape(4, 1, 8, 4, 1, 0, 'snappy', extra=['-DNULLS_ONLY'], tag='/nulls-only', ref=ref))
+        o.append(shape(1, 1, 8, 4, 1048576, 3, 'lz4', extra=['-DNULLS_ONLY'], tag='/nulls-only', ref=ref))
         o.append(shape(0, 1, 9, 4, 1048576, 0, ref=ref, timeout=3000))
     return o
 
